@@ -15,6 +15,28 @@ DECIDES = ('For word sizes 8 and 12 (a power of two and not) and both bit orders
 NOT_DECIDED = 'the SPI clock edge detection timing relative to the system clock.'
 
 
+def _comb_support(ir, name):
+    """Signals `name` depends on through combinational assignments only (itself included)."""
+    seen, work = set(), [name]
+    while work:
+        n = work.pop()
+        if n in seen:
+            continue
+        seen.add(n)
+        for a in ir.drivers(n, exact=True):
+            if a.domain == 'comb' and isinstance(a.rhs, E):
+                work.extend(a.rhs.sigs())
+                for l in a.guard:
+                    if isinstance(l.e, E):
+                        work.extend(l.e.sigs())
+    return seen
+
+
+def rx_loc(ir):
+    ds = ir.drivers('current_rx', exact=True)
+    return ds[0].loc if ds else None
+
+
 def check(ctx, ws, msb):
     tag = 'ws%d,%s' % (ws, 'msb' if msb else 'lsb')
     ir = ctx.ir('SPIDeviceInterface', 'interface.spi', word_size=ws, msb_first=msb)
@@ -60,6 +82,16 @@ def check(ctx, ws, msb):
     ctx.need(len(cs_atoms) == 1, 'chip select atom in the completion guard')
     cs_atom, cs_pol = cs_atoms[0]
     sample_guard = done_guard - {(cmp_e.canon(), True)}
+    # the sample edge is "the clock pin now differs from its registered copy": one of its two atoms must follow spi.sck
+    # combinationally -- if both are registers the edge is flagged a cycle after the pin moved while sdi and cs are read
+    # live, so at the fastest supported clock every bit is taken from the next bit's window
+    from ..fsm import atom_of as _atom_of
+    edge_lits = [l for l in acc[0].guard if _atom_of(l) in sample_guard and _atom_of(l)[0] != cs_atom and isinstance(l.e, E)]
+    edge_atoms = [_atom_of(l)[0] for l in edge_lits]
+    live = [l for l in edge_lits if any('self.spi.sck' in _comb_support(ir, s_) for s_ in l.e.sigs())]
+    ctx.ob('C50.select-alignment', 'SPIDeviceInterface.sample-edge.live-clock[%s]' % tag, bool(live) or not edge_atoms,
+           rx_loc(ir), 'the sample-edge condition (%s) must compare the live clock pin with its registered copy; none of its '
+           'terms follows spi.sck combinationally' % sorted(edge_atoms))
     natural = si.w is not None and (1 << si.w) == ws
     cd = sorted(ir.drivers(cnt, exact=True), key=lambda a: a.order)
     ats = sorted({x for a in cd for l in a.guard for x in lit_atoms(l)} | {x for x, _ in done_guard})
